@@ -1235,6 +1235,9 @@ func (E *Engine) solvePath(key string, pi int, p *PathResult, full string) []Sub
 			if st == "unsat" {
 				out[i].Status = "unsat"
 				out[i].Solver = s.name
+				if os.Getenv("GOVC_SHOWRETRY") != "" {
+					fmt.Fprintf(os.Stderr, "RETRY-OK %s path %d check %d (%s) by %s after %v\n", key, pi, c.ID, c.Ob, s.name, notes)
+				}
 				break
 			}
 			if st == "sat" {
